@@ -171,6 +171,9 @@ func FromWorkload(w scen.Workload) *Content {
 	schemas := map[uint16]*Rec{}
 	channels := map[uint16]*Rec{}
 	for i, op := range w.Ops {
+		if op.Reject {
+			continue
+		}
 		switch op.Kind {
 		case scen.OpSchema:
 			r := &Rec{Kind: "schema", ID: op.ID, Name: string(op.Name), Enc: string(op.Encoding), Data: op.Data.Bytes(), Src: i}
